@@ -11,6 +11,8 @@ def configs(tier):
             out.append(dict(universe="H5", values=("S", "L"), prune=prune, use_cache=cache, max_mut=1))
             out.append(dict(universe="HW4", values=("S", "L"), prune=prune, use_cache=cache, max_mut=1))
     out.append(dict(universe="H5", values=("S", "L"), prune=False, use_cache=False, max_mut=1, root_via="root_node"))
+    for prune in (False, True):
+        out.append(dict(universe="H4", values=("S", "L"), prune=prune, use_cache=False, max_mut=1, root_via="root_node", batch_mut=True))
     if tier == "thorough":
         out = []
         for prune in (False, True):
